@@ -102,10 +102,30 @@ def bytes_models(I, st, caller, func, args, argtys, dest_ty):
                         lambda s3: [Outcome("return", mk_option(False), s3)])
         if op == "to_vec":
             return ret(st, sl)
+        if op in ("chunks_exact", "chunks"):
+            n = z3.simplify(args[1])
+            if not z3.is_int_value(n) or n.as_long() == 0:
+                raise Unencodable("chunks with symbolic or zero size")
+            return ret(st, Agg("iter", "chunks_" + op, (sl, z3.IntVal(0), (n.as_long(),))))
         if op in ("as_ptr", "as_mut_ptr"):
             return ret(st, Opaque("raw pointer into the buffer", sl))
         if op == "copy_from_slice":
             return None
+    m = re.match(r"^<(Chunks|ChunksExact)<'_, u8> as Iterator>::next$", f) or re.match(r"^<.*slice::(Chunks|ChunksExact)<.*u8> as Iterator>::next$", f)
+    if m:
+        it = I.load(st, args[0])
+        if isinstance(it, Agg) and it.kind == "iter" and str(it.name).startswith("chunks_"):
+            base, pos, (n,) = it.fields
+            exact = it.name.endswith("exact")
+            has = (pos + n <= base.length) if exact else (pos < base.length)
+
+            def some(s2):
+                ln = n if exact else z3.If(pos + n <= base.length, n, base.length - pos)
+                I.store(s2, args[0], Agg("iter", it.name, (base, z3.simplify(pos + n), (n,))))
+                return [Outcome("return", mk_option(True, SymSlice(base.base, z3.simplify(base.off + pos), z3.simplify(ln) if z3.is_expr(ln) else z3.IntVal(ln))), s2)]
+            return fork(I, st, has, some, lambda s3: [Outcome("return", mk_option(False), s3)])
+    if re.match(r"^<(Chunks|ChunksExact)<'_, u8> as IntoIterator>::into_iter$", f) or re.match(r"^<.*slice::(Chunks|ChunksExact)<.*> as IntoIterator>::into_iter$", f):
+        return ret(st, args[0])
     if re.match(r"^core::slice::<impl \[u8\]>::copy_from_slice$", f) or re.match(r"^core::slice::<impl \[T\]>::copy_from_slice", f):
         src = as_slice(I, st, args[1])
         dst = deref_all(I, st, args[0])
